@@ -66,18 +66,26 @@ def state_str(o):
             f"ordered[{','.join(str(int(x)) for x in ordered_ids(o))}] queue[{','.join(str(int(x)) for x in o._populate_next)}]")
 
 
-def check_values(t, pid="C05"):
-    """values = exactly the active entries, each in its domain (type, range, lattice / choice / fixed)"""
+def check_values(t, pid="C05", extra=()):
+    """values = exactly the active entries, each in its domain (type, range, lattice / choice / fixed).
+    `extra`: entries that build functions reported but the oracle does not tune (tune_new_entries=False): they are
+    hyperparameters of the search all the same, a promoted trial carries the (default) value its parent reported"""
     from keras_tuner.engine.hyperparameters import hp_types
     hps = t.hyperparameters
     vals = {k: v for k, v in hps.values.items() if not k.startswith("tuner/")}
     active = set()
-    for p in hps.space:
+    space = list(hps.space)
+    for p in space:
         if all(c.name in vals and any(same(vals[c.name], w) for w in c.values) for c in p.conditions):
             active.add(p.name)
-    if set(vals) != active:
+    # not-tuned extras: optional (only what the trial's own parent reported is inherited), and then at the entry's default
+    optional = {p.name for p in extra if not hps._exists(p.name, p.conditions)} - active
+    for nm in optional & set(vals):
+        if not any(same(vals[nm], p.default) for p in extra if p.name == nm):
+            raise Violation(pid, f"trial {t.trial_id}: value {nm}={vals[nm]!r} of an entry the oracle does not tune is not its default", {"tag": "domain"})
+    if set(vals) - optional != active:
         raise Violation(pid, f"trial {t.trial_id}: values for {sorted(vals)} but active entries are {sorted(active)}", {"tag": "active-set"})
-    for p in hps.space:
+    for p in space:
         if p.name not in vals or not all(c.name in vals and any(same(vals[c.name], w) for w in c.values) for c in p.conditions):
             continue
         v = vals[p.name]
